@@ -316,10 +316,17 @@ def walk_affine(run, n, cplx, r, rng):
                             T = P.affine_linear_map(Lm.copy(), chart_index=i)
                             T2 = P.affine_linear_map(Lm.T.copy(), chart_index=i, column_vectors=False)
                             same = np.abs(np.asarray(T.matrix) - np.asarray(T2.matrix)).max() == 0
+                            if i == 0 and same:
+                                T0 = P.affine_linear_map(Lm.copy())
+                                same = np.abs(np.asarray(T.matrix) - np.asarray(T0.matrix)).max() == 0
                         else:
                             tv = want[idx, i]
                             T = P.affine_translation(tv.copy(), chart_index=i)
                             same = True
+                            if i == 0:
+                                # chart 0 is the documented default: omitting the argument must give the same map
+                                T0 = P.affine_translation(tv.copy())
+                                same = np.abs(np.asarray(T.matrix) - np.asarray(T0.matrix)).max() == 0
                     M = np.asarray(T.matrix).T            # library stores the row matrix
                     if M.shape != want.shape or not parallel(M.reshape(1, -1), want.reshape(1, -1))[0]:
                         run.violation(key, fn + ".matrix", dict(mode=mode, n=n, map=nm, chart=i, library_column_matrix=[lst(x) for x in M],
